@@ -70,7 +70,10 @@ impl Peer {
 
     pub fn handle_choke(&mut self, pieces_status: &mut Vec<Status>) {
         self.choked = true;
+        self.release_piece(pieces_status);
+    }
 
+    fn release_piece(&self, pieces_status: &mut Vec<Status>) {
         match self.piece_index {
             Some(piece_index) => {
                 pieces_status[piece_index] = match pieces_status[piece_index] {
@@ -92,6 +95,11 @@ impl Peer {
         pieces_status: &mut Vec<Status>,
         metainfo: &Metainfo,
     ) -> UnchokeCmd {
+        // Repeated Unchoke: piece requested so far is abandoned in favour of the new one
+        if !self.choked {
+            self.release_piece(pieces_status);
+        }
+
         let cmd = match chosen_index {
             Some(chosen_index) => {
                 pieces_status[chosen_index] = match pieces_status[chosen_index] {
